@@ -70,13 +70,18 @@ def _in_child(fn, timeout=300):
         return "failed", f"unreadable result: {e}"
 
 
-def numeric_replay_against_numpy(G, names=None):
+def numeric_replay_against_numpy(G, names=None, special=None):
     """-> list of (output, detail) where the real kernel disagrees with NumPy; finite data first, then NaN/inf
-    injected into the float inputs"""
+    injected into the float inputs.  The NaN/inf trials are left out for programs with reductions / contractions:
+    there the result for non-finite data depends on the order and factorisation of the sum (NumPy's einsum sums a
+    broadcast operand first, inf - inf appears or not), which is outside the NaN-aware fragment of the property."""
     from pv.props.tcommon import special_value_trials
     import copy
     how = ""
-    for trial, data in enumerate(special_value_trials(G.data)):
+    if special is None:
+        special = not ({"reduction", "einsum"} & set(getattr(G.prog, "tags", ())))
+    trials = special_value_trials(G.data) if special else [G.data]
+    for trial, data in enumerate(trials):
         G2 = copy.copy(G)
         G2.data = data
         bad, how = _numeric_replay_once(G2, names)
@@ -111,7 +116,16 @@ def _numeric_replay_once(G, names=None):
         w = np.asarray(want[k])
         g = np.asarray(got[k])
         scale = float(np.max(np.abs(w))) if w.size and w.dtype.kind in "fc" else 1.0
-        if g.shape != w.shape or not num_close(g, w, scale=max(1.0, scale)):
+        atol = 1e-8
+        if w.dtype.kind in "fc" and (w.dtype.itemsize // (2 if w.dtype.kind == "c" else 1)) <= 4:
+            # single precision: sums cancel (the result may be tiny against its summands) and the order of a float32
+            # sum is not NumPy's -- compare against the magnitude of the inputs, with float32's unit round-off
+            mags = [float(np.max(np.abs(v))) for v in G.data.values()
+                    if isinstance(v, np.ndarray) and v.size and v.dtype.kind in "fc" and np.all(np.isfinite(v))]
+            scale = max([scale, 1.0] + mags) * max(1, max((v.size for v in G.data.values() if isinstance(v, np.ndarray)), default=1))
+            atol = 1e-6
+        finite = np.isfinite(w) if w.dtype.kind in "fc" else None
+        if g.shape != w.shape or not num_close(g, w, atol=atol, scale=max(1.0, scale)):
             bad.append((k, {"engine": how, "got": np.asarray(g).tolist() if g.size < 40 else "...",
                             "want": w.tolist() if w.size < 40 else "..."}))
     return bad, how
